@@ -348,6 +348,10 @@ def model_instance(entry):
 
 
 def snap_fiber(f):
+    if f.getOwner() is not None and f.getOwner().getFormat() == "U":
+        # a rank declared uncompressed presents every coordinate of its active range; the element's index in
+        # such a fiber is its offset from the start of that range
+        return [[c, True] for c in range(*f.getActive())]
     pres = set(K._presented(f))
     return [[c, c in pres] for c in f.coords]
 
@@ -518,6 +522,18 @@ class OpProgram:
             for t in self.a:
                 t.getRoot().setActive((self.rng["lo"], self.rng["hi"]))
         self.b = [_leaf_tensor("K", S, i.get("b", []), "B") for i in nest["inst"]]
+        uf = nest.get("u_fmt")
+        if uf:
+            # one operand of a two-finger intersection lives in a rank declared uncompressed (and may be shorter
+            # than the other one, so that it runs out first)
+            side = [_leaf_tensor("K", uf["shape"], [e for e in i.get(uf["side"], []) if e[0] < uf["shape"]],
+                                 uf["side"].upper()) for i in nest["inst"]]
+            for t in side:
+                t.setFormat("K", "U")
+            if uf["side"] == "a":
+                self.a = side
+            else:
+                self.b = side
         zshape = S if not self.proj else self.proj["mul"] * (S - 1) + self.proj["off"] + 1
         self.zshape = zshape
         if self.has_z and self.zout is None:
@@ -1415,6 +1431,9 @@ def opnest_cases(draw):
         nest["rng"] = {"form": form, "lo": lo, "hi": hi, "start": start}
     if dense is not None:
         nest["dense"] = dense
+    if op in ("and", "lshift_and") and draw(st.sampled_from([False, True])):
+        nest["u_fmt"] = {"side": draw(st.sampled_from(["a", "b"])),
+                         "shape": draw(st.sampled_from([S, max(1, S - 1), max(1, S - 2), max(1, S - 2), 1]))}
     if op.startswith("lshift"):
         nest["z"] = draw(leaf_elems(zshape, p_empty=3))
         nest["z_shared"] = draw(st.sampled_from([True, True, False]))
@@ -1450,6 +1469,8 @@ def check_opnest(case, rec):
         e["z"] is not None and e["z"]["coords"] and e["bodies"] and e["bodies"][0] < e["z"]["coords"][-1]
         for e in ses.log)
     rec.cls("dest-uncompressed", nest.get("z_fmt") == "U")
+    rec.cls("and-operand-uncompressed", bool(nest.get("u_fmt")))
+    rec.cls("and-operand-uncompressed-and-shorter", bool(nest.get("u_fmt")) and nest["u_fmt"]["shape"] < nest["shape"])
     rec.cls("dest-uncompressed-insert-in-place", ushaped)
     rec.cls("project-start_pos", bool(nest["proj"]) and nest["proj"]["start"] is not None)
     rec.cls("project-interval", bool(nest["proj"]) and nest["proj"]["interval"] is not None)
@@ -1530,13 +1551,23 @@ def enumerate_small(tier):
                 for b in src:
                     yield {"nest": {"op": op, "shape": 3, "outer": None, "proj": None,
                                     "inst": [{"a": a, "b": b}]}, "cfg": cfg_for(op)}
+                    # one operand in a rank declared uncompressed, as long as the other one or shorter (quick: a
+                    # third of the pairs)
+                    if op == "and" and (tier != "quick" or (len(a) + 2 * len(b)) % 3 == 0):
+                        for side in ("a", "b"):
+                            for su in (3, 2, 1):
+                                yield {"nest": {"op": op, "shape": 3, "outer": None, "proj": None,
+                                                "u_fmt": {"side": side, "shape": su},
+                                                "inst": [{"a": a, "b": b}]}, "cfg": cfg_for(op)}
 
 
 PARTS = [Part("kernels", kernel_cases(), check_kernel, n_quick=500, n_thorough=5000),
          Part("opnests", opnest_cases(), check_opnest, n_quick=700, n_thorough=6000),
          Part("flattened", flat_cases(), check_flat, n_quick=200, n_thorough=1500),
          Part("small", None, check_opnest, n_quick=0, n_thorough=0, enumerate=enumerate_small,
-              exhaustive_note="a & b and z << a (thorough: also leader-follower) over ALL pairs of 1-level fibers of "
+              exhaustive_note="(a & b also with either operand in a rank declared uncompressed of shape 3, 2, 1 -- quick: "
+                              "for a third of the pairs) "
+                              "a & b and z << a (thorough: also leader-follower) over ALL pairs of 1-level fibers of "
                               "shape 3 whose coordinates are absent / explicit zero / non-zero (27 x 27 pairs per "
                               "operator; destination states absent / explicit zero / -1 with body += 1), no outer "
                               "loop, thresholds 2 and 1000 (thorough: all four)")]
